@@ -142,3 +142,68 @@ def run_ack_con(run, P):
             run.instance('R-REPLY-ONCE', '%s: makes an ACK (%s)' % (name, sev['e'].get('fn')))
         solve(f, Env({}), on_event, None, keys, R, key_fn=lambda e: e.ts.get('tf'), on_branch=on_branch)
     run.require(n >= (3 if run.cfg == 'base' else 1) or run.fixture_mode, 'R-REPLY-ONCE(ack): fewer than 3 (base) / 1 (reduced configurations) places that make an ACK found')
+
+
+def run_resolve_order(run, P, fname='handle_request'):
+    """R-REPLY-ONCE (resource resolution order): `.well-known/core` exists on every server and only has GET.  The unknown-resource handler
+    -- application code that typically CREATES a resource for the path it is asked about -- is chosen for a request only on paths that
+    already compared the path with the well-known URI (and found it different), or that tested the resource flag by which an application
+    asks to handle `.well-known/core` itself.  Chosen earlier, a PUT to `.well-known/core` runs the application's create-handler and is
+    answered 2.01 instead of 4.05."""
+    run.rule('R-REPLY-ONCE')
+    if not P.has(fname):
+        run.require(run.fixture_mode or run.cfg != 'base', 'R-REPLY-ONCE(resolution order): anchor %s() not found' % fname)
+        return
+    f = P.func(fname)
+    sites = []
+    for b, ev in P.events(f):
+        t = ev['e']
+        if t.get('k') == 'asg' and t.get('op') == '=':
+            r = strip(t['r'])
+            if isinstance(r, dict) and r.get('k') == 'mem' and r.get('f') == 'unknown_resource' and ap(t['l']):
+                sites.append(ev)
+    if not sites:
+        run.require(run.fixture_mode or run.cfg != 'base', 'R-REPLY-ONCE(resolution order): %s() no longer selects context->unknown_resource' % fname)
+        return
+
+    def mentions_wk(c):
+        for x in walk(c):
+            if isinstance(x, dict) and x.get('k') == 'var' and x.get('g') and 'wellknown' in (x.get('n') or ''):
+                return 'compare'
+            if isinstance(x, dict) and x.get('k') == 'int' and x.get('mn') == 'COAP_RESOURCE_HANDLE_WELLKNOWN_CORE':
+                return 'flag'
+        return None
+
+    def is_rule_event(ev):
+        return any(ev is s for s in sites)
+    keys, R = relevance(f, is_rule_event)
+    keys = set(keys)
+    for b in f['blocks']:
+        c = (b.get('term') or {}).get('cond')
+        if c is not None and mentions_wk(c):
+            keys.add(b['id'])
+
+    def on_branch(b, s, env, ctx):
+        c = (b.get('term') or {}).get('cond')
+        if c is None:
+            return env
+        m = mentions_wk(c)
+        if m == 'compare' or (m == 'flag' and s == b['succ'][0]):
+            if env.ts.get('wk'):
+                return env
+            e = env.copy()
+            e.ts['wk'] = m
+            return e
+        return env
+
+    def on_event(ev, env, ctx):
+        if any(ev is s for s in sites):
+            ok = bool(env.ts.get('wk'))
+            run.instance('R-REPLY-ONCE', '%s: selects the unknown-resource handler' % fname)
+            run.oblige('R-REPLY-ONCE', ok, '%s:wellknown-before-unknown' % fname)
+            if not ok:
+                run.violation('R-REPLY-ONCE', fname, ev['loc'], 'unknown-handler-before-wellknown',
+                              'the unknown-resource handler is selected on a path that has neither compared the request path with the well-known URI nor found the '
+                              'HANDLE_WELLKNOWN_CORE flag set: a non-GET request to .well-known/core runs the application\'s create-handler instead of being answered 4.05', ctx.path())
+        return None
+    solve(f, Env(), on_event, None, keys, R, key_fn=lambda e: e.ts.get('wk'), on_branch=on_branch)
